@@ -59,6 +59,8 @@ def documents(tier='quick'):
     docs.append(('standalone-comments', '2000-01-01 open Assets:Foo\n\n; s1\n\n; s2\n; s2b\n\n2000-01-02 * "t"\n    Assets:Foo  1 USD\n    Assets:Bar\n\n; s3\n\n2000-01-03 close Assets:Foo\n'))
     docs.append(('meta-amount', '2000-01-01 *\n    note: "n"\n    price: 10.00 USD\n    acct: Assets:Foo\n    Assets:Foo  1 STOCK\n        cost: 2 USD\n    Assets:Bar\n'))
     docs.append(('para-comments', '2000-01-01 *\n    ; p1\n    ;\n    ; p2\n    Assets:Foo  1 USD\n    ; q1\n    ;\n    ; q2\n    Assets:Bar\n'))
+    docs.append(('glued', '2000-01-01 open Assets:Foo USD;c\n2000-01-02 * "p""n"\n    Assets:Foo  10USD;pc\n    Assets:Bar  -10USD{1.5 EUR}@ 2 EUR\n2000-01-03 close Assets:Foo;bye\n2000-01-04 balance Assets:Foo 10~0.01 USD\n'))
+    docs.append(('products', '2000-01-01 *\n    Assets:A   6 * 2 / 3 USD\n    Assets:B   1 / 2 / 5 USD @ 2 * 3 * 4 EUR\n    Assets:C   -(1 + 2) * 3 / -4 - 5 * 6 + 7 USD\n    Assets:D\n'))
     docs.append(('org-headings', '* Heading\n** Sub\n2000-01-01 open Assets:Foo\n'))
     return docs
 
@@ -101,7 +103,7 @@ def random_documents(seed, n):
             if rnd.random() < 0.3: d = d.replace('\n    ', '\n' + rnd.choice(['  ', '\t', '      ']))
             if rnd.random() < 0.25 and '\n' in d and '"' not in d.split('\n')[0][-1:]:
                 first, rest = d.split('\n', 1)
-                if ';' not in first and not first.startswith('*'): d = first + rnd.choice([' ; ic', '  ;ic', ' ;']) + '\n' + rest
+                if ';' not in first and not first.startswith('*'): d = first + rnd.choice([' ; ic', '  ;ic', ' ;', ';glued', ';']) + '\n' + rest
             parts.append(d)
             r = rnd.random()
             if r < 0.25: parts.append('\n')
